@@ -5,6 +5,7 @@ import (
 	"fmt"
 	"html"
 	"io/fs"
+	"math"
 	"reflect"
 	"regexp"
 	"strconv"
@@ -428,7 +429,7 @@ func (v *Vue) callFunc(ctx *VueContext, fn any, args ...any) (any, error) {
 			in[i] = argVal
 		} else if converted, ok := convertValue(argVal, argType); ok {
 			in[i] = converted
-		} else if argVal.CanConvert(argType) {
+		} else if argVal.CanConvert(argType) && !overflows(argVal, argType) {
 			// (CanConvert, not Type.ConvertibleTo: a slice converts to an array only
 			// when it is long enough, and Convert panics when it is not)
 			in[i] = argVal.Convert(argType)
@@ -497,11 +498,12 @@ func convertValue(val reflect.Value, targetType reflect.Type) (reflect.Value, bo
 		s := val.String()
 		switch targetType.Kind() {
 		case reflect.Int, reflect.Int8, reflect.Int16, reflect.Int32, reflect.Int64:
-			if i, err := strconv.ParseInt(s, 10, 64); err == nil {
+			// (parsed at the width of the parameter: "300" is not an int8)
+			if i, err := strconv.ParseInt(s, 10, targetType.Bits()); err == nil {
 				return reflect.ValueOf(i).Convert(targetType), true
 			}
 		case reflect.Uint, reflect.Uint8, reflect.Uint16, reflect.Uint32, reflect.Uint64:
-			if u, err := strconv.ParseUint(s, 10, 64); err == nil {
+			if u, err := strconv.ParseUint(s, 10, targetType.Bits()); err == nil {
 				return reflect.ValueOf(u).Convert(targetType), true
 			}
 		case reflect.Float32, reflect.Float64:
@@ -540,6 +542,36 @@ func convertValue(val reflect.Value, targetType reflect.Type) (reflect.Value, bo
 	}
 
 	return reflect.Value{}, false
+}
+
+// overflows reports whether the number in val lies outside the range of the integer
+// type t. Go's conversion wraps such a number around (300 becomes int8(44)); an
+// argument that does not fit its parameter is an impossible conversion instead.
+func overflows(val reflect.Value, t reflect.Type) bool {
+	zero := reflect.Zero(t)
+	switch t.Kind() {
+	case reflect.Int, reflect.Int8, reflect.Int16, reflect.Int32, reflect.Int64:
+		switch val.Kind() {
+		case reflect.Int, reflect.Int8, reflect.Int16, reflect.Int32, reflect.Int64:
+			return zero.OverflowInt(val.Int())
+		case reflect.Uint, reflect.Uint8, reflect.Uint16, reflect.Uint32, reflect.Uint64, reflect.Uintptr:
+			return val.Uint() > math.MaxInt64 || zero.OverflowInt(int64(val.Uint()))
+		case reflect.Float32, reflect.Float64:
+			f := math.Trunc(val.Float())
+			return f < -(1<<63) || f >= 1<<63 || zero.OverflowInt(int64(f))
+		}
+	case reflect.Uint, reflect.Uint8, reflect.Uint16, reflect.Uint32, reflect.Uint64, reflect.Uintptr:
+		switch val.Kind() {
+		case reflect.Int, reflect.Int8, reflect.Int16, reflect.Int32, reflect.Int64:
+			return val.Int() < 0 || zero.OverflowUint(uint64(val.Int()))
+		case reflect.Uint, reflect.Uint8, reflect.Uint16, reflect.Uint32, reflect.Uint64, reflect.Uintptr:
+			return zero.OverflowUint(val.Uint())
+		case reflect.Float32, reflect.Float64:
+			f := math.Trunc(val.Float())
+			return f < 0 || f >= 1<<64 || zero.OverflowUint(uint64(f))
+		}
+	}
+	return false
 }
 
 // Built-in filter functions
